@@ -192,9 +192,6 @@ func (w *srvWorld) checkC03Order() {
 					if start < 0 {
 						continue
 					}
-					if w.stopSeq >= 0 && start > w.stopSeq {
-						continue
-					}
 					if n.Exit < 0 || n.Exit > start {
 						r.Fail("entered-before-earlier-notification-exited", "request %s of message %d started at #%d but notification %s of earlier message %d returned at #%d", q.Tag, mj.Idx, start, n.Tag, mi.Idx, n.Exit)
 						return
@@ -416,6 +413,10 @@ func (w *srvWorld) checkC07() {
 			}
 		}
 	}
+	w.checkC07UnknownCancel(replies)
+	if r.Failed() {
+		return
+	}
 	// (ii) duplicates inside one batch: both fail, neither runs
 	for _, msg := range w.msgs {
 		seen := map[string][]*member{}
@@ -511,6 +512,46 @@ func (w *srvWorld) checkC07() {
 			}
 			if !excused {
 				r.Fail("reuse-rejected-after-reply", "call %s (id %s, message %d, arrived #%d) was rejected as a duplicate (reply at #%d) although no other request with that id was in flight between its arrival and its reply; previous use: %s", b.Tag, b.ID, bmsg.Idx, bmsg.Arrive, ref.rec.Seq, last)
+				return
+			}
+		}
+	}
+}
+
+// (iv) CancelRequest for an id that is not in flight does nothing: a call
+// answered "cancelled" without its handler ever having run must have been
+// named by a CancelRequest that overlaps the time it was in flight.
+func (w *srvWorld) checkC07UnknownCancel(replies map[*member]replyRef) {
+	r := w.r
+	for _, msg := range w.msgs {
+		for _, m := range msg.Members {
+			ref, ok := replies[m]
+			if m.Kind != mCall || m.ID == "" || m.Enters > 0 || !ok || ref.mixed || msg.Arrive < 0 {
+				continue
+			}
+			if !ref.obj.HasErr || ref.obj.Code != int(jrpc2.Cancelled) {
+				continue
+			}
+			end := 1 << 30
+			if ref.hi.EndSeq > 0 {
+				end = ref.hi.EndSeq
+			}
+			justified := false
+			for _, a := range w.acts {
+				if a.Kind == aCancel && a.ID == m.ID && a.Invoke >= 0 && a.Invoke <= end && (a.Return < 0 || a.Return >= msg.Arrive) {
+					justified = true
+				}
+			}
+			for _, m2 := range w.byTag {
+				if m2.Script.CancelID == m.ID && m2.Enter >= 0 && m2.Enter <= end && (m2.Exit < 0 || m2.Exit >= msg.Arrive) {
+					justified = true
+				}
+			}
+			if m.Script.CancelID == "waiting" || (w.stopSeq >= 0 && w.stopSeq <= end) {
+				justified = true
+			}
+			if !justified {
+				r.Fail("cancel-of-unknown-id-had-effect", "call %s (id %s, message %d, arrived #%d) was answered %q (%d) without its handler having run, but every CancelRequest(%s) had returned before it arrived: cancelling an id that is not in flight must do nothing", m.Tag, m.ID, msg.Idx, msg.Arrive, ref.obj.Message, ref.obj.Code, m.ID)
 				return
 			}
 		}
